@@ -254,7 +254,7 @@ def check_worker(ctx):
     paths = ex.run(fn)
     ctx.functions_encoded[fn.key] = ctx.prog.hashes.get(fn.name, '')
     ctx.paths_total += len(paths); ctx.events_total += sum(len(p.events) for p in paths)
-    bad = []
+    bad = []; bad2 = []
     for p in paths:
         ticks = [e for e in p.events if e.kind == 'CALL' and e.args.get('callee') == 'worker_tick']
         if not ticks or p.status != 'returned':
@@ -267,16 +267,54 @@ def check_worker(ctx):
         ob.reach += 1
         if not any(C.is_poison_store(x) for x in p.events):
             bad.append(p)
+        elif not [x for x in p.events if x.kind == 'ATOMIC_FETCH_SUB']:
+            bad2.append(p)
     if ob.reach == 0:
         ob.status = 'undecided'; ob.detail = 'vacuous: the closure never returns Err'
     elif bad:
-        ob.status = 'unconfirmed'
-        ob.detail = 'worker closure returns Err without poisoning: ' + ' · '.join(x.kind for x in bad[0].events[:10])
-        ctx.unconfirmed.append({'obligation': ob.id, 'text': ob.detail, 'native': 'no native replay for worker crash'})
-        print(f'UNCONFIRMED property=C13 obligation={ob.id} :: {ob.detail}')
+        ctx.candidate(ob, 'worker/tick-error-not-fail-stop', 'worker closure returns Err without poisoning: ' + ' · '.join(x.kind for x in bad[0].events[:10]),
+                      confirm=lambda: native_worker_crash(ctx))
+    elif bad2:
+        ctx.candidate(ob, 'worker/crashed-thread-still-counted', 'a worker that exits with an error poisons the database but stays counted as running: dropping the database waits for it forever, '
+                      'so the instance can never be closed and the directory never reopened (recovery after the failure is part of the property)', confirm=lambda: native_worker_crash(ctx))
     else:
         ob.status = 'discharged'; ob.sample = {'err_paths': ob.reach}
     return ob
+
+
+def native_worker_crash(ctx):
+    """a worker thread hits a journal I/O failure (fsync of the journal being sealed at a flush tick): the database must be poisoned and later writes refused"""
+    big = '62' * 200
+    L = ['dir $DIR/db', 'rotation_threshold 0', 'workers_pausable 1', 'open workers=1', 'ks a memtable=64', 'arm_pause journal.get_writer', f'insert a 6b31 {big}',
+         'wait_parked journal.get_writer 4000', 'fault 4 0 -1 1', 'release journal.get_writer', 'poisoned 5000', 'disarm', 'insert a 6b32 32', 'persist buffer', 'workers_pausable 0', 'rotation_threshold 64000000',
+         'spawn_close D', 'join_timeout D 8000', 'open workers=0', 'ks a', 'get a 6b31', 'close']
+    spath, out = ctx.run_scenario('\n'.join(L) + '\n', tag='worker-crash')
+    rs = [(c, r) for _i, c, r in out]
+    parked = [r for c, r in rs if c == 'wait_parked']
+    if any(c == 'CRASH' for c, _r in rs):
+        return False, spath, 'replay ended abnormally: ' + rs[-1][1][-200:]
+    if not parked or not parked[0].startswith('ok'):
+        return False, spath, f'the worker did not reach the rotation ({parked})'
+    fired = [r for c, r in rs if c == 'disarm']
+    if fired and 'fired=0' in fired[0]:
+        return False, spath, 'the injected fault did not fire in the worker'
+    po = [r for c, r in rs if c == 'poisoned']
+    ins = [r for c, r in rs if c == 'insert']
+    pe = [r for c, r in rs if c == 'persist']
+    if po and po[0] != 'true':
+        return True, spath, f'a worker thread\'s journal fsync failed ({fired}), but the database is not poisoned 5 s later; later operations: insert={ins[-1:]}, persist={pe}'
+    if ins and ins[-1] == 'ok':
+        return True, spath, f'a write is acknowledged after a worker thread\'s journal I/O failure: {ins[-1]}'
+    jt = [r for c, r in rs if c == 'join_timeout']
+    if jt and jt[-1] == 'pending':
+        return True, spath, 'after a worker thread died of a journal I/O failure, dropping the database does not finish within 8 s (it waits for a thread that no longer exists): the instance cannot be closed, the directory cannot be reopened'
+    op = [r for c, r in rs if c == 'open']
+    g = [r for c, r in rs if c == 'get']
+    if len(op) == 2 and op[1] != 'ok':
+        return True, spath, f'reopening after the failure fails: {op[1]}'
+    if g and not g[0].startswith('some:'):
+        return True, spath, f'a write acknowledged before the failure is missing after reopen: {g[0]}'
+    return False, spath, 'held natively'
 
 
 def run(ctx):
@@ -301,6 +339,7 @@ def run(ctx):
 
 
 MUTANTS = [
+    {'name': 'revert: crashed worker stays counted as running', 'edits': [('src/worker_pool.rs', "                                    thread_counter.fetch_sub(1, Relaxed);\n\n                                    return Err(e);", "                                    return Err(e);")]},
     {'name': 'insert: no poison on write_raw error',
      'edits': [('src/keyspace/mod.rs', """            .write_raw(self.id, &key, &value, lsm_tree::ValueType::Value, seqno)
             .inspect_err(|_| {
@@ -333,7 +372,7 @@ MUTANTS = [
             .write_raw(self.id, &key, &[], lsm_tree::ValueType::Tombstone, seqno)""")]},
     {'name': 'worker swallows the tick error without poisoning',
      'edits': [('src/worker_pool.rs', """                                    poison_dart.poison();
-                                    return Err(e);""", """                                    return Err(e);""")]},
+""", """""")]},
     {'name': 'batch: persist failure returns Err without poisoning',
      'edits': [('src/batch/mod.rs', """            if let Err(e) = journal_writer.persist(mode) {
                 self.db.is_poisoned.poison();
